@@ -187,9 +187,7 @@ def hist_term(T, r):
 
 
 def evaluate(workdir, results, tag='cases'):
-    """returns (mismatches, monitor_failures, variant) — lists of (hist, step, kind) — or (None, log, None) on a Coq failure.
-    The model has two variants of the delay gate (wrapping = the code with finding tm-delay-overflow, guarded = the proposed
-    repair); the comparison is made with both and the variant the tree implements (fewer disagreements) is reported."""
+    """returns (mismatches, monitor_failures) — lists of (hist, step, kind) — or (None, log) on a Coq failure"""
     shards = [results[i:i + SHARD] for i in range(0, len(results), SHARD)]
 
     global _BYTES
@@ -204,28 +202,23 @@ def evaluate(workdir, results, tag='cases'):
     def one(ix):
         i, defs = ix
         res = vlib.coq_eval_lists(workdir, '%s_%d.v' % (tag, i), HEADER, defs,
-                                  [('M0', 'mismatches false cases'), ('M1', 'mismatches true cases'),
-                                   ('F', 'monitor_failures cases')])
-        m0 = vlib.parse_nat_tuples(res.get('M0'), 3)
-        m1 = vlib.parse_nat_tuples(res.get('M1'), 3)
+                                  [('M', 'mismatches cases'), ('F', 'monitor_failures cases')])
+        m = vlib.parse_nat_tuples(res.get('M'), 3)
         f = vlib.parse_nat_tuples(res.get('F'), 3)
-        if res['_rc'] != 0 or m0 is None or m1 is None or f is None:
+        if res['_rc'] != 0 or m is None or f is None:
             return ('error', res['_out'][-3000:])
         off = i * SHARD
         sh3 = lambda l: [(h + off, s, k) for h, s, k in l]
-        return (sh3(m0), sh3(m1), sh3(f))
+        return (sh3(m), sh3(f))
 
     outs = vlib.parallel(one, list(enumerate(texts)), workers=14)
-    m0, m1, ff = [], [], []
+    mm, ff = [], []
     for o in outs:
         if o[0] == 'error':
-            return None, o[1], None
-        m0 += o[0]
-        m1 += o[1]
-        ff += o[2]
-    if len(m1) < len(m0):
-        return m1, ff, 'guarded'
-    return m0, ff, 'wrapping' if len(m0) < len(m1) else 'undetermined'
+            return None, o[1]
+        mm += o[0]
+        ff += o[1]
+    return mm, ff
 
 
 def run_specs(workdir, specs, tag):
@@ -244,7 +237,7 @@ def shrink(workdir, spec, which, kind):
         rs = run_specs(workdir, [sp], 'shrink')
         if not rs:
             return False
-        mm, ff, _ = evaluate(workdir, rs, 'shrink_cases')
+        mm, ff = evaluate(workdir, rs, 'shrink_cases')
         if mm is None:
             return False
         got = ff if which == 'monitor' else mm
@@ -354,12 +347,11 @@ def check(run):
         run.violation(dict(kind='harness-crashed', log=o[-3000:]), no_input=True)
         return run.finish()
     results = vlib.read_jsonl(outp)
-    mm, ff, variant = evaluate(run.work, results)
+    mm, ff = evaluate(run.work, results)
     if mm is None:
         run.violation(dict(kind='coq-evaluation-failed', log=ff), no_input=True)
         return run.finish()
     coverage(run, results, mm, ff)
-    run.coverage['delay_gate_variant_implemented'] = variant
 
     reported = set()
     known_seen = 0
@@ -408,7 +400,7 @@ def replay(path):
         print('cannot replay: %s' % (out[-500:] if not ok else 'no spec in replay file (%s)' % rp.get('kind')))
         return 2
     rs = run_specs(work, [rp['spec']], 'replay')
-    mm, ff, _ = evaluate(work, rs, 'replay_cases')
+    mm, ff = evaluate(work, rs, 'replay_cases')
     last = rs[0]['obs'][-1]
     print('observed:', json.dumps({k: v for k, v in last.items() if k not in ('store', 'chus_store', 'hdr', 'oracle')}))
     print('model mismatches:', mm, ' monitor failures:', ff)
